@@ -310,9 +310,9 @@ func runC19(e *sim.Env) {
 func init() {
 	register(&Prop{
 		ID: "C19", Run: runC19, Quick: 900, Thorough: 20000, Level: "exploration",
-		Rule: "one run = C01-style history on a node that is pruned at drawn moments (height 0, mid-chain, tip, tip+1, beyond the tip; repeated) and crashed/reopened now and then, next to an unpruned twin receiving the same submissions; after every prune and every submission: exactly the best-chain bodies below the pruned heights are gone, headers/states/best index/History/Headers/tip/element view equal the twin's, MinReorgIndex is the lowest height with contiguous bodies, UpdatesSince/BlocksForHistory either answer like the twin or fail with an error when a pruned body is needed, forks with fork point at or above MinReorgIndex give the twin's outcome, forks below fail with an error and leave the node unchanged; distinct = abstract trace (prune kinds, reorg depth buckets); non-trivial = at least one prune",
-		Real: []string{"chain.Manager", "chain.DBStore (pruned node and unpruned twin)"},
-		Stub: []string{"disk: simdisk.DB"},
+		Rule:        "one run = C01-style history on a node that is pruned at drawn moments (height 0, mid-chain, tip, tip+1, beyond the tip; repeated) and crashed/reopened now and then, next to an unpruned twin receiving the same submissions; after every prune and every submission: exactly the best-chain bodies below the pruned heights are gone, headers/states/best index/History/Headers/tip/element view equal the twin's, MinReorgIndex is the lowest height with contiguous bodies, UpdatesSince/BlocksForHistory either answer like the twin or fail with an error when a pruned body is needed, forks with fork point at or above MinReorgIndex give the twin's outcome, forks below fail with an error and leave the node unchanged; distinct = abstract trace (prune kinds, reorg depth buckets); non-trivial = at least one prune",
+		Real:        []string{"chain.Manager", "chain.DBStore (pruned node and unpruned twin)"},
+		Stub:        []string{"disk: simdisk.DB"},
 		Assumptions: []string{"blocks handed to the node again after pruning may or may not be served again (documented as unsupported); everything else about them is still checked"},
 	})
 }
